@@ -16,8 +16,8 @@ RELEASES = (RELEASE, RELEASE_UNW)
 SHARED = (LS, TLS, TLSF, TLSU)
 # own steps of the operations (for boundary-aimed schedules)
 LOCK_STEPS = 9       # invoke | lock ldc inc ldr call rb re dec
-RELEASE_STEPS = 10   # invoke | lock ldr str ldc d1 stc d2 unlock | ounlock
-SHARED_STEPS = 5     # invoke | ldc inc ldr dec
+RELEASE_STEPS = 14   # invoke | lock ldr a1b a1e str ldc d1 stc d2 a2b a2e unlock | ounlock
+SHARED_STEPS = 7     # invoke | ldc inc ldr rb re dec
 
 
 class _Vals:
@@ -32,6 +32,7 @@ class _Vals:
 def _writer_session(rng, nw, vals, end=None):
     s = rng.below(nw)
     ops = [[LOCK, s]]
+    nulls = []                  # slots that hold a moved-from (null) handle object
     for _ in range(rng.range(0, 3)):
         k = rng.below(6)
         if k <= 2:
@@ -40,16 +41,37 @@ def _writer_session(rng, nw, vals, end=None):
             ops.append([INCR, s])
         else:
             ops.append([READH, s])
-        if nw > 1 and rng.chance(1, 8):
-            s2 = (s + 1 + rng.below(nw - 1)) % nw
+        free = [x for x in range(nw) if x != s and x not in nulls]
+        if free and rng.chance(1, 4):
+            s2 = rng.pick(free)
             ops.append([MOVE, s, s2])
+            nulls.append(s)
             s = s2
+        # cancel / destroy the moved-from handle while the move target is still live: must do nothing
+        if nulls and rng.chance(1, 2):
+            x = rng.pick(nulls)
+            k = rng.weighted([(4, CANCEL), (2, RELEASE), (1, RELEASE_UNW), (1, WRITE), (1, MOVE)])
+            if k == WRITE:
+                ops.append([WRITE, x, 7])                  # null handle: refused
+            elif k == MOVE:
+                ops.append([MOVE, x, s])                   # refused
+            else:
+                ops.append([k, x])
+                if k != CANCEL:
+                    nulls.remove(x)
     if rng.chance(1, 4):
         ops.append([READH, s])
     if end is None:
         end = CANCEL if rng.chance(1, 4) else (RELEASE_UNW if rng.chance(1, 5) else RELEASE)
     if end is not False:
         ops.append([end, s])
+    for x in nulls:
+        # after the session: cancel() on the null handle (still nothing), then it is destroyed (mostly), so that later
+        # sessions of this thread find the slot empty
+        if rng.chance(1, 3):
+            ops.append([CANCEL, x])
+        if rng.chance(5, 6):
+            ops.append([rng.pick([RELEASE, RELEASE, RELEASE_UNW]), x])
     return ops
 
 
@@ -97,7 +119,7 @@ def _reader_prog(rng, ns, nsess, timed=True):
 
 def gen(rng, tier, spec):
     nt = rng.weighted([(1, 1), (5, 2), (6, 3), (3, 4)])
-    nw, ns = rng.range(1, 2), rng.range(1, 3)
+    nw, ns = rng.weighted([(2, 1), (3, 2), (1, 3)]), rng.range(1, 3)
     timed = rng.below(2)      # outer mutex kind: 0 std::mutex, 1 std::timed_mutex
     vals = _Vals()
     edge = rng.below(24)
@@ -316,14 +338,31 @@ class _Replay:
         return sum(1 for s in self.sessions if s['end'] is None)
 
 
+def _null_ops(ops):
+    """invocation lines of the release / cancel operations that act on a moved-from (null) write-handle object:
+       slot a holds one from a successful move a -> b until it is destroyed (7 / 17)"""
+    null, out = set(), set()
+    for o in sorted(ops, key=lambda x: x['inv']):
+        t, c = o['tid'], o['code']
+        ok = o['done'] and not o['threw'] and o['ret'] != -1
+        if c == MOVE and ok:
+            null.add((t, _arg(o, 0)))
+        elif c in RELEASES + (CANCEL,) and (t, _arg(o, 0)) in null:
+            out.add(o['inv'])
+            if c in RELEASES and ok:
+                null.discard((t, _arg(o, 0)))
+    return out
+
+
 def mon_fault(case, lines):
-    """a payload access window overlapped a write window, or a destroyed version was used"""
+    """a payload access window overlapped a write window, a destroyed version was used, or (objects 7, 8 of the model:
+       the two shared_ptr objects of the inner lr_guarded) a copy of a shared_ptr object overlapped an assignment to it"""
     for i, t, k, o, v in _events(lines):
         if k == K['FAULT']:
             what = {1: 'write window opened while a read window is open', 2: 'read window opened while a write window is open',
                     3: 'two write windows open', 4: 'read of a half-written value',
                     5: 'use of a destroyed version'}.get(v, 'fault %d' % v)
-            return 'thread %d at trace line %d: %s on version obj%d' % (t, i, what, o)
+            return 'thread %d at trace line %d: %s on obj%d (a version payload, or one of the two shared_ptr objects of the inner lr_guarded)' % (t, i, what, o)
     f = _final(lines)
     if f and len(f) >= 11 and f[10] != 0:
         return 'payload fault counter = %d' % f[10]
@@ -509,16 +548,18 @@ def mon_ledger(case, lines):
 
 def mon_read_no_mutex(case, lines):
     """lock_shared and the snapshot operations perform no mutex operation, never yield or sleep (C14), and
-       lock_shared is exactly load, rmw, load, rmw"""
+       lock_shared is exactly load, rmw, load, the copy of the shared_ptr (a read window), rmw"""
     for o in _ops(case, lines):
         if o['code'] in SHARED + (READS, DROPS, COPYS):
             for (i, k, ob, v) in o['evs']:
                 if _is_mutex(k) or k in (K['YIELD'], K['SLEEP'], K['CV_SLEEP']):
                     return 'operation %d of thread %d performed a blocking operation (kind %d) at line %d' % (o['code'], o['tid'], k, i)
             if o['code'] in SHARED and o['ret'] == 0:
-                kinds = [e[1] for e in o['evs'][:-1]]
-                if kinds != [K['LOAD'], K['RMW'], K['LOAD'], K['RMW']]:
-                    return 'lock_shared of thread %d (line %d) performed %s, not load, rmw, load, rmw' % (o['tid'], o['inv'], kinds)
+                # wait-free: a short, bounded sequence of atomic operations and the two edges of the copy's read window
+                # (the exact order is left to the correspondence; overlap with a writer is the wrapper's K_FAULT)
+                kinds = [e[1] for e in o['evs'][:-1] if e[1] != K['FAULT']]
+                if len(kinds) > 6 or any(k not in (K['LOAD'], K['RMW'], K['RD_BEGIN'], K['RD_END']) for k in kinds):
+                    return 'lock_shared of thread %d (line %d) performed %s: not at most 6 atomic operations / copy-window edges' % (o['tid'], o['inv'], kinds)
     return None
 
 
@@ -535,9 +576,17 @@ def mon_progress(case, lines):
 
 
 def mon_cancel(case, lines):
-    """cancel() unlocks the outer mutex exactly once, commits nothing"""
-    for o in _ops(case, lines):
-        if o['code'] == CANCEL and o['ret'] == 0:
+    """cancel() unlocks the outer mutex exactly once, commits nothing; cancel() / destruction of a moved-from (null)
+       handle does nothing at all"""
+    ops = _ops(case, lines)
+    nul = _null_ops(ops)
+    for o in ops:
+        if o['inv'] in nul:
+            other = [e[1] for e in o['evs'] if e[1] != K['RET']]
+            if other or (o['done'] and o['ret'] != 0):
+                return 'operation %d of thread %d on a moved-from (null) write handle (line %d) performed operations %s (result %s)' % (
+                    o['code'], o['tid'], o['inv'], other, o['ret'])
+        elif o['code'] == CANCEL and o['ret'] == 0:
             nu = sum(1 for e in o['evs'] if e[1] == K['UNLOCK'])
             other = [e[1] for e in o['evs'] if e[1] not in (K['UNLOCK'], K['RET'])]
             if nu != 1 or other:
@@ -547,7 +596,8 @@ def mon_cancel(case, lines):
 
 def mon_exn_lock(case, lines):
     """a lock() whose copy throws releases the inner read registration and the outer mutex (C20); every lock()
-       takes the outer mutex first, every release unlocks it last"""
+       takes the outer mutex first (the exact shape of a release is left to the correspondence: a monitor on it would
+       fire on every case of a changed deleter and hide the semantic monitors' replays)"""
     for o in _ops(case, lines):
         if o['code'] == LOCK and o['done'] and o['ret'] != -1:
             ks = [(e[1], e[2], e[3]) for e in o['evs']]
@@ -565,10 +615,6 @@ def mon_exn_lock(case, lines):
                         o['tid'], o['end'], nl, nu, ks[0][0] if ks else None)
                 if len(rm) != 2 or rm[0][1] != rm[1][1]:
                     return 'lock() of thread %d (line %d) did not release its read registration' % (o['tid'], o['end'])
-        if o['code'] in RELEASES and o['ret'] == 0:
-            ks = [e[1] for e in o['evs'] if e[1] != K['RET']]
-            if len(ks) < 2 or ks[-1] != K['UNLOCK'] or ks[-2] != K['UNLOCK']:
-                return 'release of thread %d (line %d) does not end with unlock(inner), unlock(outer)' % (o['tid'], o['end'])
     return None
 
 
